@@ -111,6 +111,8 @@ class Prover(object):
         self.steps = 0
         self.budget = 4000
         self.used_rules = set()
+        self.deadline = None
+        self.time_limit = 20.0
 
     # -------------------------------------------------------------- facts / conditions
     def cond_value(self, atom, facts):
@@ -207,8 +209,15 @@ class Prover(object):
         return p
 
     def nonneg(self, p, facts=frozenset(), depth=0):
+        import time as _t
+        if depth == 0:
+            self.deadline = _t.time() + self.time_limit
         self.steps += 1
         if self.steps > self.budget or depth > self.max_depth:
+            return False
+        if self.deadline is not None and _t.time() > self.deadline:
+            return False
+        if len(p.m) > 400:
             return False
         p = self.resolve(p, facts)
         if p.is_zero():
